@@ -7,6 +7,12 @@ CHECKS={
  "C07":dict(cat="exploration",technique="runtime monitoring: differential lexeme-stream oracle (own RFC 8259 lexer + encoding/json + math/big) over exhaustive bounded number lexemes and seeded generated texts",
    text="The real JSON minifier is run on every RFC 8259 number lexeme up to a length bound in three contexts (exhaustive), on seeded generated texts and on repository JSON files, with both KeepNumbers values; output must be valid for encoding/json, never longer, and token-for-token equal (strings byte-identical, numbers exactly equal as rationals).",
    note="Trusts encoding/json.Valid, math/big and my lexer; unbounded input space is sampled.",ref="DESIGN.md §5 C07"),
+ "C14":dict(cat="fault_enumeration",technique="runtime monitoring: fault-injecting reader/writer doubles at every position with sentinel-error oracle, call-budget progress monitor, goroutine-dump blocked-forever detector, race-detector child",
+   text="For every input of a pool (hand-written incl. truncations of each, generated, repository corpus) of all six media types, the reader is made to fail after every byte count (three fault shapes, three error kinds incl. errors wrapping io.EOF) and the writer from every write index on, through Minify, Reader, Writer and ResponseWriter; the call must return the injected error and must return at all.",
+   note="Complete over fault positions of each observed input (sampled above 512); inputs themselves are a finite pool. Blocking is decided from unchanging goroutine dumps, never from elapsed time alone.",ref="DESIGN.md §5 C14"),
+ "C15":dict(cat="exploration",technique="runtime monitoring: recording stub minifiers + reference dispatch model over exhaustively enumerated registration/call histories (bounded) and seeded random ones",
+   text="Every history of registrations up to a length bound over 8 overlapping literal/pattern registrations (exhaustive), plus random histories up to length 40 over 17, with calls interleaved after every registration: the stub that runs, its parameters, Match's answer, the error and the bytes written are compared with a 15-line model of the documented rules; command minifiers are exercised sequentially and concurrently.",
+   note="Model is my reading of the doc comments (literal first, then first registered matching pattern, else ErrNotExist); media-type splitting is only predicted for well-formed strings.",ref="DESIGN.md §5 C15"),
  "C08":dict(cat="exploration",technique="runtime monitoring: canary redzones + math/big value oracle over an exhaustive bounded enumeration and seeded random lexemes",
    text="Every lexeme of the number grammar up to a length bound over a carry-exercising digit alphabet (exhaustive), plus seeded long/extreme lexemes, is run through the real Number and Decimal at 22 precisions under canary, panic, grammar, length and exact-value monitors. Held = no monitor fired on any observed call.",
    note="Trusts math/big and my 40-line grammar recogniser; values beyond the enumerated bound are sampled, not covered.",ref="DESIGN.md §5 C08"),
